@@ -348,16 +348,30 @@ func (c *Ctx) RulerLocking(prop string) {
 	rule3 := "C04.O3 unlock.deferred"
 	var L *Loop
 	lock := r.Locks[0]
+	// the key expression and the loop over the request list it is computed in (the lock loop itself, or - when the keys are
+	// collected first - the full-range loop over the requests that appends one key per request to the list the lock loop ranges over)
+	var keyExpr ssa.Value
+	var keyIdx ssa.Value
 	for _, l := range FindLoops(F) {
-		if l.FullRange && l.BoundLen == data && l.Body[lock.Block()] {
-			L = l
+		if !l.FullRange || !l.Body[lock.Block()] {
+			continue
+		}
+		if l.BoundLen == data {
+			L, keyExpr, keyIdx = l, lock.Common().Args[0], l.Idx
+			continue
+		}
+		if elem, src, ok := appendedPerIteration(F, l.BoundLen, data); ok {
+			// the lock argument must be the element of that list at the lock loop's own index
+			if root, idx, isElem := elemLoad(lock.Common().Args[0]); isElem && root == l.BoundLen && idx == l.Idx {
+				L, keyExpr, keyIdx = l, elem, src.Idx
+			}
 		}
 	}
 	if len(r.Locks) != 1 || L == nil {
 		c.R.Fail(rule1, Fn(F), c.Pos(lock), "the key lock is not taken inside a full-range loop over the request list", "for i := range rulesData { Lock(key of rulesData[i]) }", nil)
 		return
 	}
-	keyOK, keyWhy := lockKeyFrom(lock.Common().Args[0], data, L.Idx)
+	keyOK, keyWhy := lockKeyFrom(keyExpr, data, keyIdx)
 	switch {
 	case !keyOK:
 		c.R.Fail("C04.O5 key-agreement", Fn(F)+":lock", c.Pos(lock), "the lock key is not the public key of the request at the loop's own index: "+keyWhy, "lockKey = copy of rulesData[i].PubKey", nil)
@@ -413,6 +427,66 @@ func (c *Ctx) RulerLocking(prop string) {
 	}
 	// ---------- C01.O13 dedupe
 	c.rulerDedupe(r, L, statefulGlobals)
+}
+
+// appendedPerIteration recognises a list built as `list := make(_, 0, n); for i := range data { ...; list = append(list, e) }`:
+// listVal is the value of the list after the loop (the header phi), the loop is a full-range loop over data without break
+// edges, and every iteration that reaches the next one has performed the single append. It returns the appended element
+// expression e (a value of the loop body, i.e. "e at iteration i") and the loop: list[j] is then e of iteration j, and
+// len(list) == len(data) once the loop has completed.
+func appendedPerIteration(fn *ssa.Function, listVal ssa.Value, data ssa.Value) (ssa.Value, *Loop, bool) {
+	phi, ok := listVal.(*ssa.Phi)
+	if !ok || len(phi.Edges) != 2 {
+		return nil, nil, false
+	}
+	var mk *ssa.MakeSlice
+	var app *ssa.Call
+	for _, e := range phi.Edges {
+		switch x := e.(type) {
+		case *ssa.MakeSlice:
+			mk = x
+		case *ssa.Call:
+			if isBuiltin(x, "append") {
+				app = x
+			}
+		}
+	}
+	if mk == nil || app == nil || !an.IsConstInt(mk.Len, 0) || app.Call.Args[0] != ssa.Value(phi) {
+		return nil, nil, false
+	}
+	elems := varargValuesT(app.Call.Args[1])
+	if len(elems) != 1 {
+		return nil, nil, false
+	}
+	for _, l := range FindLoops(fn) {
+		if !l.FullRange || l.BoundLen != data || l.Header != phi.Block() || !l.Body[app.Block()] {
+			continue
+		}
+		if len(l.BreakEdges()) > 0 {
+			// leaving the loop early is fine only if it leaves the function (a return): the list is then not used
+			early := false
+			for _, e := range l.BreakEdges() {
+				if x, _ := an.Cut(an.CutQuery{From: an.Point{Block: e[1], Idx: 0}, Target: func(i ssa.Instruction) bool {
+					for _, r := range *phi.Referrers() {
+						if r == i && i != ssa.Instruction(app) {
+							return true
+						}
+					}
+					return false
+				}}); x != nil {
+					early = true
+				}
+			}
+			if early {
+				continue
+			}
+		}
+		if l.IterationSkips(func(i ssa.Instruction) bool { return i == ssa.Instruction(app) }) {
+			continue
+		}
+		return elems[0], l, true
+	}
+	return nil, nil, false
 }
 
 // lockKeyFrom checks that v (a [48]byte value) is a local array that received exactly copy(arr[:], rulesData[idx].PubKey):
